@@ -703,7 +703,7 @@ func c03Oracle(cr *caseRun) [][2]string {
 		case strings.Contains(cr.Impl.Stderr, "error on optimizing imports") || strings.Contains(cr.Impl.Stderr, "error on formatting"):
 			sig += ":generated-code-does-not-parse"
 			if m := regexp.MustCompile(`setup\.gen\.go:\d+:\d+: (.*)`).FindStringSubmatch(cr.Impl.Stderr); m != nil {
-				sig += ":" + regexp.MustCompile(`'[^']*'|\d+`).ReplaceAllString(m[1], "_")
+				sig += ":" + regexp.MustCompile(`found [A-Za-z_][A-Za-z0-9_]*`).ReplaceAllString(regexp.MustCompile(`'[^']*'|\d+`).ReplaceAllString(m[1], "_"), "found IDENT")
 			}
 		default:
 			lines := strings.Split(strings.TrimSpace(cr.Impl.Stderr), "\n")
